@@ -2781,7 +2781,8 @@ int link_function_mips(
     {
       //printf("jal detected @ 0x%04x function_offset=0x%04x rel=0x%04x\n", asm_context->address, function_offset, function_offset + n);
 
-      local_offset = opcode & 0x03000000;
+      // The addend of a relocation against the section: a word index.
+      local_offset = (opcode & 0x03ffffff) << 2;
 
       // This needs to be from the same .o file as this function.
       const char *symbol = imports_obj_find_name_from_offset(
